@@ -565,6 +565,34 @@ func init() {
 		Rule:  "random certified Sentence-rooted grammars over single-byte terminals without trims; half of the cases have every Any/Choice named; inputs mostly non-matching. Probes around every terminal and End record failing positions. Oracle: reported position <= furthest failing terminal, equal when every alternative is named; message form. Non-trivial = the parse failed at a position after the first byte.",
 		Count: quickN(6000, 60000),
 		Gen: func(rng *rand.Rand, tier string, i int) *Sexp {
+			if i%5 == 4 {
+				// a Choice/Any whose MATCHING alternative returns a node together with an error (Optional over a
+				// sequence that consumed input before it failed): that error may be the furthest failure of the parse
+				al := []byte("abc")
+				t := func() *Sexp { return runeT(al[rng.Intn(3)]) }
+				inner := LA("seq", A("of"), noOpts, t(), t())
+				if rng.Intn(3) == 0 {
+					inner = LA("seq", A("of"), noOpts, t(), t(), t())
+				}
+				kind := []string{"choice", "any"}[rng.Intn(2)]
+				head := LA(kind, t(), LA("opt", inner))
+				if rng.Intn(2) == 0 {
+					head = LA(kind, LA("opt", inner), t())
+				}
+				if rng.Intn(2) == 0 {
+					head = LA("name", HS("head"), head)
+				}
+				body := LA("seq", A("of"), noOpts, head, t())
+				g := genGrammar{[]*Sexp{body}, LA("sentence", LA("ref", N(0)))}
+				if rng.Intn(3) == 0 {
+					g.env[0] = LA("memo", N(0), body)
+				}
+				in := make([]byte, 1+rng.Intn(4))
+				for k := range in {
+					in[k] = al[rng.Intn(3)]
+				}
+				return parseCaseSexp(g, in)
+			}
 			o := genOpts{subMemo: 0.1, sentence: 1, maxRules: 3, nameAlts: i%2 == 0, noSuppress: true, productive: 0.9}
 			g := genCertified(rng, o)
 			in := sampleInput(rng, g, alphabetOf(g), 10)
